@@ -3,7 +3,7 @@
 From VekLib Require Import Ops RingOps LinAlg.
 From VekModel Require Import BoolReduce.
 Require Import List.
-From VekProofs Require Import C02_spec C02_pa C02_pb C02_pc C02_pd C02_pe C02_pf C02_pg C02_ph.
+From VekProofs Require Import C02_spec C02_pa C02_pb C02_pc C02_pd C02_pe C02_pf C02_pg C02_ph C02_pi.
 
 Theorem C02_construct : forall C : cring, C02_construct_stmt C.           Proof. exact C02_pa.C02_construct. Qed.
 Theorem C02_arith : forall C : cring, C02_arith_stmt C.                   Proof. exact C02_pb.C02_arith. Qed.
@@ -13,6 +13,7 @@ Theorem C02_reduce : forall C : cring, C02_reduce_stmt C.                 Proof.
 Theorem C02_dot : forall C : cring, C02_dot_stmt C.                       Proof. exact C02_pe.C02_dot. Qed.
 Theorem C02_elementwise : forall C : cring, C02_elementwise_stmt C.       Proof. exact C02_pf.C02_elementwise. Qed.
 Theorem C02_reduce_partial : forall C : cring, C02_reduce_partial_stmt C. Proof. exact C02_pg.C02_reduce_partial. Qed.
+Theorem C02_reduce_partial_wide : forall C : cring, C02_reduce_partial_wide_stmt C. Proof. exact C02_pi.C02_reduce_partial_wide. Qed.
 Theorem C02_cmp_small : forall C : cring, C02_cmp_small_stmt C.           Proof. exact C02_pg.C02_cmp_small. Qed.
 Theorem C02_cmp_wide : forall C : cring, C02_cmp_wide_stmt C.             Proof. exact C02_ph.C02_cmp_wide. Qed.
 
@@ -30,5 +31,6 @@ Print Assumptions C02_reduce.
 Print Assumptions C02_dot.
 Print Assumptions C02_elementwise.
 Print Assumptions C02_reduce_partial.
+Print Assumptions C02_reduce_partial_wide.
 Print Assumptions C02_cmp_small.
 Print Assumptions C02_cmp_wide.
